@@ -56,7 +56,7 @@ int main( int argc, char** argv )
    //      compile of analyze<>, which bounds the family: three rules over the full menu would be 4.8 million grammars)
    fams.push_back( { "indirect_recursion_through_classical_operators", { "SEQ", "SOR", "STAR", "IF_THEN_ELSE", "CUSTOM_ANY" }, { FILLERS_SMALL, "SEQ", "SOR", "NOT_AT", "CUSTOM_ANY" }, 3, false } );
    if( thorough )
-      fams.push_back( { "indirect_recursion_through_operator_pairs", { CORE_OPS, CORE_OPS3, CONV_OPS, CONV_OPS3, "REP2", "REP_MIN1", "RMM12", "REP_OPT2", "TC_RF", "TC_RN", "ENABLE", "STATE", "ACTION_ALT", "RAW1", "CUSTOM_ANY" }, { FILLERS_SMALL, CORE_OPS, CONV_OPS, "REP2", "REP_MIN1", "RMM12", "REP_OPT2", "TC_RF", "TC_RN", "ENABLE", "STATE", "ACTION_ALT", "RAW1", "CUSTOM_ANY" }, 2, false } );
+      fams.push_back( { "indirect_recursion_through_operator_pairs", { CORE_OPS, CORE_OPS3, CONV_OPS, CONV_OPS3, REP_OPS, EXC_OPS, META_OPS }, { FILLERS_SMALL, CORE_OPS, CONV_OPS, "REP2", "REP_MIN1", "RMM12", "REP_OPT2", "TC_RF", "TC_RN", "ENABLE", "STATE", "ACTION_ALT", "RAW1", "CUSTOM_ANY" }, 2, false } );
 
    const std::string sigma = "ab[";
    std::vector< std::string > inputs;
